@@ -55,13 +55,29 @@ var anchorBare, anchorQualified = func() (map[string]bool, map[string][]string) 
 		fset := token.NewFileSet()
 		file := fset.AddFile(e.Name(), fset.Base(), len(b))
 		var sc scanner.Scanner
-		sc.Init(file, b, nil, 0)
+		sc.Init(file, b, nil, scanner.ScanComments)
+		off := false
+		prev2, prev1, prevLit := token.ILLEGAL, token.ILLEGAL, ""
 		for {
 			_, tok, lit := sc.Scan()
 			if tok == token.EOF {
 				break
 			}
-			if tok != token.STRING {
+			// the fields of a negative control (Name/Expect/Old/New/...) describe edits and report keys, not anchors
+			ctl := prev1 == token.COLON && prev2 == token.IDENT && (prevLit == "Expect" || prevLit == "Name" || prevLit == "Old" || prevLit == "New" || prevLit == "Rule" || prevLit == "File")
+			if tok == token.IDENT {
+				prevLit = lit
+			}
+			prev2, prev1 = prev1, tok
+			if tok == token.COMMENT {
+				if strings.HasPrefix(lit, "// anchors:off") {
+					off = true
+				} else if strings.HasPrefix(lit, "// anchors:on") {
+					off = false
+				}
+				continue
+			}
+			if tok != token.STRING || ctl || off {
 				continue
 			}
 			if strings.ContainsAny(lit, " \t\n") || len(lit) > 120 {
@@ -82,7 +98,18 @@ var anchorBare, anchorQualified = func() (map[string]bool, map[string][]string) 
 	return bare, qual
 }()
 
+// structuralAnchors: functions that are units of the rules by what they are, whatever they are called.
+var structuralAnchors = []func(*ssa.Function) bool{isACLCheckFn}
+
 func isAnchored(g *ssa.Function) bool {
+	if _, ok := renamedFns.Load(g); ok {
+		return true // stands in for an anchor of the reference tree
+	}
+	for _, pred := range structuralAnchors {
+		if pred(g) {
+			return true
+		}
+	}
 	name := g.Name()
 	if anchorBare[name] {
 		return true
